@@ -529,7 +529,9 @@ is_destructible() const {
  */
 bool CPPStructType::
 is_default_constructible(CPPVisibility min_vis) const {
-  if (is_abstract()) {
+  if (min_vis < V_protected && is_abstract()) {
+    // An abstract class cannot be instantiated by itself, but it can still be
+    // constructed as the base-class subobject of a derived class.
     return false;
   }
 
@@ -595,7 +597,8 @@ is_default_constructible(CPPVisibility min_vis) const {
  */
 bool CPPStructType::
 is_copy_constructible(CPPVisibility min_vis) const {
-  if (is_abstract()) {
+  if (min_vis < V_protected && is_abstract()) {
+    // As above: an abstract base can be copied as part of a derived object.
     return false;
   }
 
